@@ -79,3 +79,95 @@ for _i, (_style, _pos, _mode, _doc) in enumerate(_ALL):
        bound="%s skeleton (%d chars) with %s %s at offset %d" % (
            _style, len(_doc), "any printable ASCII character (name position: dict-key insertion realises, so the range is finite and solver-enumerated)" if _np else "ANY code point",
            "inserted" if _mode == "ins" else "substituted", _pos))(_pert(_doc, _pos, _mode))
+
+
+# ---- the AST-level parsers: function / class / argparse / pydantic (C02 shapes) and SQLAlchemy columns -------------------------------
+from collections import OrderedDict  # noqa: E402
+
+from harness.formats import FORMAT_FUNCS, hop  # noqa: E402
+
+
+def _ast_parser(fmt):
+    def body(i, b, c0, nodefault, withret):
+        s = "x" + chr(c0)
+        ps = [("a", {"typ": "int", "doc": "first arg"} if nodefault else {"typ": "int", "doc": "first arg", "default": i}),
+              ("b", {"typ": "Optional[bool]", "doc": "second arg", "default": b}),
+              ("c", {"typ": "str", "doc": "third " + s, "default": s})]
+        ir = {"name": "C", "doc": "Header line.", "type": "static", "params": OrderedDict(ps),
+              "returns": OrderedDict((("return_type", {"typ": "int", "doc": "the result", "default": 5}),)) if withret else None}
+        try:
+            back = hop(fmt, ir)
+        except Exception:
+            return ""
+        d = wf(back)
+        if d:
+            return d
+        names = list(back["params"])
+        for want in ("a", "b", "c"):
+            n = 0
+            for x in names:
+                if x == want:
+                    n += 1
+            if n != 1:
+                return "signature parameter %s appears %d times in the result" % (want, n)
+        return ""
+
+    return body
+
+
+for _fmt in ("class", "pydantic", "function", "argparse"):
+    ob("C14", "ast.%s" % _fmt, {"i": R(0, 1), "b": BOOL, "c0": PR, "nodefault": BOOL, "withret": BOOL}, pre="c0 != 47", T=400,
+       funcs=FORMAT_FUNCS[_fmt], assumes=[ADHOC_SHIMS_DOC],
+       bound="what the %s parser returns for an emitted interface with int / Optional[bool] / str parameters (str default and description tail = 'x' + ANY printable "
+             "character), with/without a default on the first parameter and a return entry: well-formed, every signature parameter exactly once" % _fmt)(_ast_parser(_fmt))
+
+
+COLKINDS = ("Column('%s', Integer, comment='c')", "Column('%s', Integer, comment='c', primary_key=True)",
+            "Column('%s', Integer, ForeignKey('parent.id'), comment='c')", "Column('%s', Integer, ForeignKey('parent.id'), comment='c', primary_key=True)",
+            "Column('%s', String, comment='c', default='d', nullable=False)", "Column('%s', Float, nullable=True)",
+            "Column('%s', Enum('np', 'tf', name='e'), comment='c')", "Column('%s', JSON, doc='c', server_default='x')")
+
+
+def sql_parser(variant, k0, k1, documented):
+    import ast as _ast
+
+    import cdd.sqlalchemy.emit  # noqa: F401  (import order)
+    import cdd.sqlalchemy.parse as P
+
+    def col(k, name):
+        t = COLKINDS[0]
+        for j in range(1, len(COLKINDS)):
+            if k == j:
+                t = COLKINDS[j]
+        return t % name
+
+    doc = "Header.\n\n:cvar id: the id\n:cvar other: the other" if documented else "Header."
+    if variant == 0:
+        src = "config_tbl = Table('config_tbl', metadata, %s, %s, comment=%r)" % (col(k0, "id"), col(k1, "other"), doc)
+        node = _ast.parse(src).body[0]
+        parse = P.sqlalchemy_table
+    else:
+        c0, c1 = col(k0, "id").replace("Column('id', ", "Column("), col(k1, "other").replace("Column('other', ", "Column(")
+        src = "class Config(Base):\n    '''\n    %s\n    '''\n    __tablename__ = 'config_tbl'\n    id = %s\n    other = %s\n" % (doc.replace("\n", "\n    "), c0, c1)
+        node = _ast.parse(src).body[0]
+        parse = P.sqlalchemy
+    try:
+        back = parse(node)
+    except Exception:
+        return ""
+    if "type" not in back:
+        back = dict(back, type=None)
+    d = wf(back)
+    if d:
+        return d
+    if list(back["params"]) != ["id", "other"]:
+        return "columns %r came back as parameters %r" % (["id", "other"], list(back["params"]))
+    return ""
+
+
+for _v, _vn in ((0, "table"), (1, "class")):
+    ob("C14", "ast.sqlalchemy.%s" % _vn, {"variant": R(_v, _v), "k0": R(0, len(COLKINDS) - 1), "k1": R(0, len(COLKINDS) - 1), "documented": BOOL}, T=600, tpath=60,
+       funcs=["cdd.sqlalchemy.parse.sqlalchemy", "cdd.sqlalchemy.parse.sqlalchemy_table", "cdd.sqlalchemy.utils.parse_utils.column_call_to_param",
+              "cdd.sqlalchemy.utils.emit_utils.sqlalchemy_class_to_table", "cdd.shared.parse.utils.parser_utils.ir_merge"],
+       bound="SQLAlchemy %s with two columns, each of ANY of %d kinds (plain, PK, FK, PK+FK, default+not-null, nullable, Enum, JSON+server_default), documented in the "
+             "docstring or not (solver-enumerated): the returned interface is well-formed (only typ/doc/default/x_typ keys) and has exactly the two columns" % (_vn, len(COLKINDS)))(sql_parser)
